@@ -2858,6 +2858,10 @@ class op(object):
                 if not foundobj:
                     functions[rowlabel] = self.objective
                     foundobj = True
+                else:
+                    # further 'N' rows are free rows: their entries 
+                    # are read and ignored
+                    functions[rowlabel] = _function()
             else: 
                 raise ValueError("unknown row type '%s'" %s[1:3].strip())
             s = f.readline()
